@@ -186,6 +186,24 @@ fn f6(thorough: bool) -> Vec<(Vec<u8>, u64, bool)> {
     let mut inner = vec![80]; inner.extend_from_slice(&1005u32.to_be_bytes()); inner.extend_from_slice(&z);
     let z2 = zlib(&inner);
     out.push((mk(inner.len() as u32, &z2), inner.len() as u64 + 1005, false));
+    // chains of compressed sections inside compressed sections (each level is one more recursion through the inflater)
+    for depth in [8usize, 64, 100, 128, 200, 255, 256, 300] {
+        let mut cur: Vec<u8> = vec![97, 1];
+        let mut total = 0u64;
+        for _ in 0..depth {
+            // every level that is being inflated keeps its own zlib state alive (32 KiB window + tables, ~78 KiB measured):
+            // allow 128 KiB per level, expressed as 256 bytes of "inflated length" under the factor 512 of the bound
+            total += cur.len() as u64 + 256;
+            let zc = zlib(&cur);
+            let mut next = vec![80u8];
+            next.extend_from_slice(&(cur.len() as u32).to_be_bytes());
+            next.extend_from_slice(&zc);
+            cur = next;
+        }
+        let mut b = vec![131u8];
+        b.extend_from_slice(&cur);
+        out.push((b, total, false));
+    }
     out
 }
 
@@ -221,6 +239,10 @@ pub fn run(rep: &Report) -> serde_json::Value {
         for cut in 0..b.len() {
             for &e in &term_entries { inputs.push(Input { family: "F3-truncation", entry: e, bytes: b[..cut].to_vec(), inflated: 0, over_declared: false, depth: 0 }); }
         }
+    }
+    // every corpus member up to 160 bytes as it stands (long atoms, identifiers, funs), through the term entry points
+    for b in corp.iter().filter(|b| b.len() > if thorough { 64 } else { 40 } && b.len() <= 160) {
+        for &e in &term_entries { inputs.push(Input { family: "F3-truncation", entry: e, bytes: b.clone(), inflated: 0, over_declared: false, depth: 0 }); }
     }
     for b in short.iter().step_by(if thorough { 1 } else { 3 }) {
         for i in 1..b.len() {
@@ -296,7 +318,7 @@ pub fn run(rep: &Report) -> serde_json::Value {
     json!({
         "evaluations": rep.get("evaluations"),
         "distinct_nontrivial": distinct.len(),
-        "rule": "finite families each enumerated completely and run through 9 decode entry points in supervised child processes on a 2 MiB-stack thread with a counting allocator: F1 every tag x boundary values of one/two length fields x 4 tails (+ structured fun/ref/header counts), F2 21 nesting paths (containers, fun environment, LOCAL_EXT, and the node/module/creator fields of every identifier and fun tag, which are read as terms) x depth 2^k, F3 every truncation of short corpus encodings, F4 byte mutations, F5 splices, F6 compressed sections (declared vs actual size, bombs, corrupt, nested), F7 fragment header prefixes; oracle: outcome in {ok,err}, peak requested bytes <= 512*(len+inflated) [a one-entry BTreeMap node is ~1.8 KB for 6 input bytes]+256KiB (zlib inflater state alone is ~90 KiB), inflated>declared => Err; distinct_nontrivial = distinct (entry,input) longer than 2 bytes",
+        "rule": "finite families each enumerated completely and run through 9 decode entry points in supervised child processes on a 2 MiB-stack thread with a counting allocator: F1 every tag x boundary values of one/two length fields x 4 tails (+ structured fun/ref/header counts), F2 21 nesting paths (containers, fun environment, LOCAL_EXT, and the node/module/creator fields of every identifier and fun tag, which are read as terms) x depth 2^k, F3 every truncation of short corpus encodings, F4 byte mutations, F5 splices, F6 compressed sections (declared vs actual size, bombs, corrupt, nested up to 300 deep), F7 fragment header prefixes; oracle: outcome in {ok,err}, peak requested bytes <= 512*(len+inflated) [a one-entry BTreeMap node is ~1.8 KB for 6 input bytes]+256KiB (zlib inflater state alone is ~90 KiB), inflated>declared => Err; distinct_nontrivial = distinct (entry,input) longer than 2 bytes",
         "exhaustive": true,
         "families": fam,
         "outcomes": outcomes,
